@@ -1,5 +1,10 @@
 """C12 — Config validation returns well-typed complete configs or rejects.
 
+Round 3: second model layer coq/C12/Ext.v (color / color_or_token / kivycolor with the named colours TRANSLATED from
+rgb_color.py, int_from_hex, dict(k:v), subconfig(..) and the RECURSIVE _validate_config with the unknown-key check at every
+depth; suites `item` (now through the recursive model) and `deep`) and coq/C12/Player.v (config-player entry names; suite
+`player`).
+
 (T) Util.string_to_ms / string_to_secs are TRANSLATED from the Python source (ast) into coq/C12/gen/Time.v on
     every run (suffix chain order, slice lengths, multipliers, int/float/round calls), fail-closed.
 (H) The scalar validators (incl. template_* and gain), item types (single/list/set/dict/event_handler, event strings with
@@ -186,6 +191,9 @@ EXPECTED_VALIDATORS = {
     "template_float_or_token": "or_token:_validate_type_template_float", "template_bool": "_validate_type_template_bool",
     "template_secs": "_validate_type_template_secs", "template_ms": "_validate_type_template_ms",
     "template_str": "_validate_type_template_str", "gain": "_validate_type_gain",
+    "color": "_validate_type_color", "color_or_token": "or_token:_validate_type_color",
+    "kivycolor": "_validate_type_kivycolor", "int_from_hex": "_validate_type_int_from_hex",
+    "subconfig": "_validate_type_subconfig",
 }
 
 
@@ -217,24 +225,56 @@ def check_validator_table(src):
     return sorted(table)
 
 
+def translate_colors(src):
+    """NAMED_RGB_COLORS = dict(name=(r, g, b), ...) of mpf/core/rgb_color.py -> Gallina association list"""
+    tree = ast.parse(src)
+    call = None
+    for node in tree.body:
+        if isinstance(node, ast.Assign) and any(isinstance(t, ast.Name) and t.id == "NAMED_RGB_COLORS" for t in node.targets):
+            call = node.value
+    if not (isinstance(call, ast.Call) and isinstance(call.func, ast.Name) and call.func.id == "dict" and not call.args):
+        raise Untranslatable("translate:rgb_color.py:NAMED_RGB_COLORS is not a dict(name=(r, g, b), ...) literal")
+    rows = []
+    for kw in call.keywords:
+        v = kw.value
+        if kw.arg is None or not ascii_ok(kw.arg) or not isinstance(v, ast.Tuple) or len(v.elts) != 3 or \
+                not all(isinstance(e, ast.Constant) and type(e.value) is int for e in v.elts):
+            raise Untranslatable("translate:rgb_color.py:NAMED_RGB_COLORS[%r] is not a tuple of three int constants" % kw.arg)
+        rows.append("(%s, (%s, %s, %s))" % ((_coq_str(kw.arg),) + tuple(zlit(e.value) for e in v.elts)))
+    return "\n".join(["(* GENERATED on every run by harness/props/c12.py translate() from mpf/core/rgb_color.py",
+                      "   (NAMED_RGB_COLORS).  Do not edit. *)",
+                      "From Common Require Import Prelude.",
+                      "Open Scope Z_scope.",
+                      "Definition named_colors : list (list Z * (Z * Z * Z)) := [",
+                      ";\n".join("  " + r for r in rows), "]."]) + "\n"
+
+
+def _write_if_changed(path, text):
+    old = open(path).read() if os.path.exists(path) else None
+    if old != text:
+        with open(path, "w") as f:
+            f.write(text)
+
+
 def translate(repo, gendir):
     os.makedirs(gendir, exist_ok=True)
     path = os.path.join(gendir, "Time.v")
+    cpath = os.path.join(gendir, "Colors.v")
     try:
         src = open(os.path.join(repo, "mpf/core/utility_functions.py")).read()
         text = translate_time(src)
         names = check_validator_table(open(os.path.join(repo, "mpf/core/config_validator.py")).read())
         text += "\n(* validator names of ConfigValidator.validator_list (config_validator.py), for reference *)\n"
         text += "Definition all_validator_names : list str := %s.\n" % coqlist(_coq_str(n) for n in names)
+        ctext = translate_colors(open(os.path.join(repo, "mpf/core/rgb_color.py")).read())
     except Exception:
         # fail closed: no stale generated model may survive a failed translation
-        if os.path.exists(path):
-            os.unlink(path)
+        for q in (path, cpath):
+            if os.path.exists(q):
+                os.unlink(q)
         raise
-    old = open(path).read() if os.path.exists(path) else None
-    if old != text:
-        with open(path, "w") as f:
-            f.write(text)
+    _write_if_changed(path, text)
+    _write_if_changed(cpath, ctext)
 
 
 # ==================================================================================================
@@ -260,7 +300,7 @@ def tagv(v):
     if isinstance(v, (set, frozenset)):
         return ["set", sorted((tagv(x) for x in v), key=lambda t: json.dumps(t))]
     if isinstance(v, tuple):
-        return ["other", "tuple"]
+        return ["tup", [tagv(x) for x in v]]
     cn = type(v).__name__
     if cn == "RuntimeToken":
         return ["tok", v.token]
@@ -337,7 +377,7 @@ def cyv(t):
         if not ascii_ok(t[1]):
             raise OutOfDomain("non-ascii")
         return "(YStr %s)" % cstr(t[1])
-    if k == "l":
+    if k == "l" or k == "tup":       # a tuple (color) is written as a list in the model; the oracle sees the tuple
         return "(YList %s)" % coqlist(cyv(x) for x in t[1])
     if k == "d":
         return "(YDict %s)" % coqlist("(%s,%s)" % (cyv(a), cyv(b)) for a, b in t[1])
@@ -600,7 +640,18 @@ MACHINE = {"switches": ["s1", "s2", "s_left"], "coils": ["c1", "c2"], "ball_devi
            "playfields": ["playfield"], "shot_profiles": ["default"], "combo_switches": ["both_flippers"],
            "timed_switches": ["flipper_cradle"], "psus": ["default"]}
 MODELLED = set(EXPECTED_VALIDATORS) - {"dict"} | {"dict"}
-UNMODELLED_TYPES = ["color", "kivycolor", "int_from_hex", "subconfig(device)", "color_or_token"]
+UNMODELLED_TYPES = ["color", "kivycolor", "int_from_hex", "subconfig(device)", "color_or_token", "kivycolor", "color",
+                    "subconfig(coil_overwrites)", "subconfig(shot_profile_states)", "subconfig(sound_ducking)",
+                    "dict(str:int)", "dict(str:machine(switches))", "dict(lstr:ms)", "dict(int:kivycolor)", "dict(x)",
+                    "subconfig(nosuch)", "subconfig", "kivycolor(1)", "color()", "color(x)", "int_from_hex(2)",
+                    "subconfig(sound_ducking,device)"]
+COLOR_ITEMS = ["red", "Red", "RED", "off", "white", "ff0000", "FF00aa", "ff0000ff", "abcdef1", "fff", "f00", "bad", "abc",
+               "#ff0000", "#fff", "12345", "123456789", "fffffg", "255,0,0", "255, 0, 0", "1,2", "1,2,3,4", "1,2,3,4,5",
+               "300,0,0", "-1,2,3", "0,0,256", "1,none,3", "1.5,2,3", "a,b,c", "(x)", "(machine.color)", "()", "(",
+               "none", "", " ", "0", 0, 123456, 255, True, False, None, 1.5, "red,blue", " red", "beige", "cafe00",
+               "decade", "facade", "ABCDEF", "00ff00 ", "0,0,0", "255,255,255,255", "12,34", "1_0,2,3", " 7 ,8,9"]
+HEX_ITEMS = ["ff", "fff", "0", "7f", "FF", "0x1F", "0X10", "0x", "0x_f", "0x__f", "f_f", "_f", "f_", " f ", "-5", "+a", "g",
+             "", "none", "1.5", 10, 255, 256, 0, -3, 1.5, True, None, "100", "0b1", "1e3", "dead", "be ef", "0xg"]
 TEMPLATE_TYPES = ["template_int", "template_float", "template_ms", "template_secs", "template_str", "template_bool",
                   "template_float_or_token", "gain"]
 
@@ -674,7 +725,7 @@ def enc_entry(key, v):
     if isinstance(v, list) and len(v) == 3 and all(isinstance(x, str) for x in v):
         return ["item"] + list(v)
     if isinstance(v, dict):
-        return ["nested"]
+        return ["nested", enc_spec(v)]
     return ["raw"]
 
 
@@ -690,7 +741,7 @@ def dec_spec(enc):
         elif e[0] == "item":
             d[k] = list(e[1:])
         elif e[0] == "nested":
-            d[k] = {"x": ["single", "str", ""]}
+            d[k] = dec_spec(e[1]) if len(e) > 1 else {"x": ["single", "str", ""]}
         else:
             d[k] = "machine, mode"
     return d
@@ -750,7 +801,8 @@ SCALAR_VALIDATORS = ["str", "lstr", "int", "int(0,255)", "int(NONE,10)", "int(-5
                      "template_float_or_token", "gain", "template_int", "template_ms", "gain", "template_float(0,1)"]
 ODD_VALIDATORS = ["template_int(1)", "gain(1)", "template_str()", "nosuch", "nosuch(1)", "str(1)", "enum", "machine", "bool(x)", "int(5)", "int(a,b)", "pow2(1)", "float(0,1",
                   "int()", "list(x)", "dict(str:int)", "secs(1)"]
-DICT_VALIDATIONS = ["str:int", "int:int", "str:str", "float:str", "str:list", "machine(switches):ms", "int:enum(input,output)",
+DICT_VALIDATIONS = ["str:subconfig(sound_ducking)", "int:subconfig(coil_overwrites)", "str:kivycolor", "str:color",
+                    "str:int_from_hex", "str:int", "int:int", "str:str", "float:str", "str:list", "machine(switches):ms", "int:enum(input,output)",
                     "str:ms", "str:bool", "lstr:num(0,10)", "list:int", "nocolon", "str:int:x", "str:secs", "int:pow2"]
 
 
@@ -799,6 +851,20 @@ def good_item(rng, validation):
         return rng.choice(["a,b", "a, b ,c", ["a", "b"], "a", 5, None, "", "a,none"])
     if base == "dict":
         return rng.choice([{}, {"a": 1}, {"a": {"b": 2}}, None, "", 0, "x", [], [1]])
+    if base in ("color", "kivycolor"):
+        if rng.random() < 0.15:
+            # three or four hex-ish / decimal characters at every position
+            return "".join(rng.choice("0123456789abcdefABCDEFg#, ") for _ in range(rng.choice([3, 3, 4, 6, 6, 7, 8, 9])))
+        if rng.random() < 0.10:
+            return ",".join(str(rng.choice([0, 1, 17, 128, 255, 256, -1, 1000])) for _ in range(rng.choice([1, 2, 3, 3, 3, 4, 5])))
+        return rng.choice(COLOR_ITEMS)
+    if base == "int_from_hex":
+        return rng.choice(HEX_ITEMS)
+    if base == "subconfig":
+        return rng.choice([None, {}, {"zz": 1}, "abc", 5, [], {"pulse_ms": 20}, {"pulse_msec": 20}, {"name": "one"},
+                           {"name": "one", "shw": "flash"}, {"attack": "1s", "target": "music", "attenuation": 0.5},
+                           {"target": "music", "attenuation": 0.5, "relase": "1s"}, {"label": "x", "tags": "a, b"},
+                           {"label": "x", "Tags": "a"}, {"_x": 1}, "none", [{"a": 1}]])
     if base.startswith("template_"):
         return rng.choice([5, "5", " 7 ", 1.5, "1.5", True, False, "true", "settings.a + 1", "(settings.a + 1)",
                            "current_player.score > 10", "1 +", "(x", "{machine.x}", "abc", "a b", "2s", "1.5s", "200ms",
@@ -831,7 +897,7 @@ def gen_spec_entry(rng):
         va = "event_handler:ms" if rng.random() < 0.92 else "str:ms"
     else:
         r = rng.random()
-        va = rng.choice(SCALAR_VALIDATORS) if r < 0.88 else rng.choice(ODD_VALIDATORS) if r < 0.94 else \
+        va = rng.choice(SCALAR_VALIDATORS) if r < 0.76 else rng.choice(ODD_VALIDATORS) if r < 0.81 else \
             rng.choice(UNMODELLED_TYPES)
     r = rng.random()
     if r < 0.30:
@@ -906,9 +972,198 @@ def run_item(case):
     args = [list(case["spec"]), vfi]
     if "item" in case:
         args.append(untag(case["item"]))
+    root = spec_closure(cv.config_spec, subconfig_refs_of_entry(case["spec"][0], case["spec"][1])) \
+        if "subconfig" in case["spec"][1] else []
     out = _outcome(cv.validate_config_item, *args)
     out["spec_changed"] = spec_fingerprint(cv.config_spec) != _RIG["spec0"]
+    out["root"] = root
     return out
+
+
+# --------------------------------------------------------------------------------------------------
+# the spec store as a tree (sections reachable through subconfig(..) references), for the recursive model
+def subconfig_refs_of_entry(ty, va):
+    vs = va.split(":")[:2] if ty in ("dict", "event_handler") else [va]
+    out = []
+    for v in vs:
+        n, p = split_validator(v)
+        if n == "subconfig" and p:
+            out.extend(x for x in p.split(",") if x)
+        if n == "dict" and p:
+            for w in p.split(":")[:2]:
+                n2, p2 = split_validator(w)
+                if n2 == "subconfig" and p2:
+                    out.extend(x for x in p2.split(",") if x)
+    return out
+
+
+def _refs_of_body(enc):
+    out = []
+    for k, e in enc:
+        if e[0] == "item":
+            out.extend(subconfig_refs_of_entry(e[1], e[2]))
+        elif e[0] == "nested" and len(e) > 1:
+            out.extend(_refs_of_body(e[1]))
+    return out
+
+
+def spec_closure(config_spec, names):
+    """[[section, enc_spec(body)], ...] for every top-level section reachable from `names` (which may be paths a:b)"""
+    seen = {}
+    todo = [n.split(":")[0] for n in names]
+    while todo:
+        n = todo.pop()
+        if n in seen or n not in config_spec or not isinstance(config_spec[n], dict):
+            continue
+        seen[n] = enc_spec(config_spec[n])
+        todo.extend(x.split(":")[0] for x in _refs_of_body(seen[n]))
+    return [[n, seen[n]] for n in sorted(seen)]
+
+
+def tree_get(rootmap, name):
+    parts = name.split(":")
+    body = rootmap.get(parts[0])
+    for q in parts[1:]:
+        if body is None:
+            return None
+        ent = dict((k, e) for k, e in body).get(q)
+        body = ent[1] if ent is not None and ent[0] == "nested" and len(ent) > 1 else None
+    return body
+
+
+def ctspec(enc):
+    def ce(e):
+        if e[0] == "ignore":
+            return "TIgnore"
+        if e[0] == "item":
+            return "(TItem %s %s %s)" % (cstr(e[1]), cstr(e[2]), cstr(e[3]))
+        if e[0] == "nested":
+            return "(TNested %s)" % ctspec(e[1] if len(e) > 1 else [["x", ["item", "single", "str", ""]]])
+        return "TRaw"
+    return "(%s : tspec)" % coqlist("(%s, %s)" % (cstr(k), ce(e)) for k, e in enc) if enc else "(@nil (str * tentry))"
+
+
+def croot(root):
+    if not root:
+        return "(@nil (str * tentry))"
+    return coqlist("(%s, TNested %s)" % (cstr(n), ctspec(body)) for n, body in root)
+
+
+def body_modelled(enc, depth=0):
+    """every entry of a (sub-)section is inside the recursive model's domain"""
+    for k, e in enc:
+        if not ascii_ok(k) or k == "":
+            return False
+        if e[0] == "item":
+            if k.startswith("_"):
+                continue
+            if not entry_modelled_x(e[1], e[2]) or not ascii_ok(e[3]) or not numeric_text_in_domain(e[3]) or \
+                    gain_db_outside(e[1], e[2], None, e[3]):
+                return False
+        elif e[0] == "nested":
+            if len(e) > 1 and not body_modelled(e[1], depth + 1):
+                return False
+    return True
+
+
+TUPLE_VALIDATORS = ("color", "color_or_token")
+
+
+def entry_modelled_x(ty, va):
+    if not ascii_ok(ty + va):
+        return False
+    # a colour is a TUPLE (hashable) in the code and a list in the model's observable: as a set element or a dict key the
+    # two differ (the model would report "unhashable") -> such entries are judged by the oracle only
+    vs0 = va.split(":")[:2] if ty in ("dict", "event_handler") else [va]
+    if ty == "set" and split_validator(va)[0] in TUPLE_VALIDATORS:
+        return False
+    if ty in ("dict", "event_handler") and split_validator(vs0[0])[0] in TUPLE_VALIDATORS:
+        return False
+    for v in vs0:
+        n0, p0 = split_validator(v)
+        if n0 == "dict" and p0 and split_validator(p0.split(":")[0])[0] in TUPLE_VALIDATORS:
+            return False
+    for v in (va.split(":")[:2] if ty in ("dict", "event_handler") else [va]):
+        n, p = split_validator(v)
+        if n == "dict" and p:
+            # dict(k:v): the inner validators are the first layer (no dict(..) inside dict(..))
+            if any(split_validator(w)[0] == "dict" and split_validator(w)[1] for w in p.split(":")[:2]):
+                return False
+    return True
+
+
+def deep_in_domain(rootmap, names, t, depth=0):
+    """the source of a (sub-)config is inside the recursive model's domain (every value for its validator)"""
+    if depth > 8:
+        return False
+    bodies = [tree_get(rootmap, n) for n in names]
+    if any(b is None for b in bodies):
+        return True          # KeyError in the code, EKey in the model
+    if not all(body_modelled(b) for b in bodies):
+        return False
+    merged = merged_spec_py(bodies)
+    if any(e[0] == "item" and e[1] == "set" for e in merged.values()):
+        return False
+    if t[0] != "d":
+        return not has_text(t, lambda x: not ascii_ok(x))
+    for kt, vt in t[1]:
+        if kt[0] == "s" and not ascii_ok(kt[1]):
+            return False
+        e = merged.get(kt[1]) if kt[0] == "s" else None
+        if e is None or kt[1].startswith("_"):
+            if has_text(vt, lambda x: not ascii_ok(x)):
+                return False
+            continue
+        if e[0] == "item":
+            if not item_in_domain_x(rootmap, e[1], e[2], vt, depth):
+                return False
+        elif e[0] == "nested":
+            if vt[0] == "l":
+                if not all(deep_in_domain(rootmap, [names[0] + ":" + kt[1]], x, depth + 1) for x in vt[1]):
+                    return False
+            elif vt[0] != "n":
+                return False
+        elif e[0] == "raw":
+            return False
+    return True
+
+
+def item_in_domain_x(rootmap, ty, va, t, depth=0):
+    if not item_in_domain(ty, va, t):
+        return False
+    vs = va.split(":")[:2] if ty in ("dict", "event_handler") else [va]
+    refs = []
+    for j, v in enumerate(vs):
+        n, p = split_validator(v)
+        if n == "subconfig" and p:
+            refs.append((j, p.split(",")))
+        elif n == "dict" and p:
+            for w in p.split(":")[:2]:
+                if split_validator(w)[0] == "subconfig":
+                    return False     # subconfig inside dict(k:v): not generated, not modelled in the harness
+    if not refs:
+        return True
+    # the values handed to the subconfig validator
+    subs = []
+    if ty == "single":
+        subs = [t]
+    elif ty in ("list", "set"):
+        if t[0] == "l":
+            subs = list(t[1])
+        elif t[0] == "d":
+            subs = [t]
+        elif t[0] == "s" and t[1] != "":
+            return False        # a comma string of "sub-configs": each is a str (char-wise unknown-key check) - not fed
+    elif t[0] == "d":
+        subs = [v for _, v in t[1]] if refs[0][0] == 1 or len(refs) > 1 else [k for k, _ in t[1]]
+    for x in subs:
+        if x[0] == "d":
+            if not deep_in_domain(rootmap, refs[0][1], x, depth + 1):
+                return False
+        elif x[0] in ("l",):
+            if has_text(x, lambda y: not ascii_ok(y)):
+                return False
+    return True
 
 
 EV_RE = re.compile(r'([\w|-]+?\{.*?\}|[\w|-]+)')
@@ -1043,7 +1298,16 @@ def gain_db_outside(ty, va, t, de=""):
 def has_container_str(ty, va, t):
     """str(list/dict) is not modelled: lstr / enum / secs applied to a container"""
     names = [split_validator(x)[0] for x in (va.split(":")[:2] if ty in ("dict", "event_handler") else [va])]
-    if not any(n in ("lstr", "secs", "secs_or_token", "template_str", "gain") for n in names):
+    sensitive = ("lstr", "secs", "secs_or_token", "template_str", "gain", "color", "color_or_token", "kivycolor",
+                 "int_from_hex")
+    if "dict(" in va:
+        n0, p0 = split_validator(va)
+        if n0 != "dict" or not p0 or ty != "single":
+            return t[0] in ("l", "d")
+        if not any(split_validator(w)[0] in sensitive for w in p0.split(":")[:2]):
+            return False
+        return t[0] == "d" and any(a[0] in ("l", "d") or b[0] in ("l", "d") for a, b in t[1])
+    if not any(n in sensitive for n in names):
         return False
 
     def deep(x, lvl):
@@ -1059,24 +1323,42 @@ def has_container_str(ty, va, t):
     return deep(t, 0)
 
 
+def _all_entries(enc):
+    for k, e in enc:
+        if e[0] == "item":
+            yield e
+        elif e[0] == "nested" and len(e) > 1:
+            for x in _all_entries(e[1]):
+                yield x
+
+
 def coq_item(case, out):
     ty, va, de = case["spec"]
     try:
-        if not entry_modelled(ty, va) or not ascii_ok(de) or not numeric_text_in_domain(de):
+        if not entry_modelled_x(ty, va) or not ascii_ok(de) or not numeric_text_in_domain(de):
             return None
         if gain_db_outside(ty, va, None, de):
             return None
+        root = out.get("root") or []
+        rootmap = {n: b for n, b in root}
+        if not all(body_modelled(b) for b in rootmap.values()):
+            return None
         if "item" in case:
-            if not item_in_domain(ty, va, case["item"]):
+            if not item_in_domain_x(rootmap, ty, va, case["item"]):
                 return None
             it = "(Some %s)" % cyv(case["item"])
         else:
+            if de and not item_in_domain_x(rootmap, ty, va, ["s", de]):
+                return None
             it = "(@None yv)"
         o = out
         if ty == "set" and "err" in out and out["err"] != "CFE9":
             o = {"err": "CFE0"}       # a set has no iteration order: which element fails first is not modelled
-        mt = cmach(expr_table([case["item"]] if "item" in case else [], [de], [va]))
-        return "((%s, (%s, %s, %s), %s), %s)" % (mt, cstr(ty), cstr(va), cstr(de), it, cres(o, cyv, "yv"))
+        ents = [e for _, b in root for e in _all_entries(b)]
+        mt = cmach(expr_table([case["item"]] if "item" in case else [], [de] + [e[3] for e in ents],
+                              [va] + [e[2] for e in ents]))
+        return "((%s, %s, (%s, %s, %s), %s), %s)" % (croot(root), mt, cstr(ty), cstr(va), cstr(de), it,
+                                                     cres(o, cyv, "yv"))
     except OutOfDomain:
         return None
 
@@ -1177,6 +1459,24 @@ def py_has_type(va, t, stats=None):
         return t[0] == "n" or (t[0] == "f" and 0.0 <= float(t[1]) <= 1.0)
     if n == "subconfig":
         return subconfig_ok(p, t)
+    if n == "kivycolor":
+        # "a 4-item list, RGBA, with individual values from 0.0 - 1.0" (or None / a "(placeholder)" string)
+        if t[0] == "n" or (t[0] == "s" and t[1][:1] == "(" and t[1][-1:] == ")"):
+            return True
+        return t[0] == "l" and len(t[1]) == 4 and all(x[0] in ("f", "i") and 0 <= float(x[1]) <= 1 for x in t[1])
+    if n == "color":
+        # "3-item list, RGB, with individual values from 0-255"
+        return t[0] == "tup" and len(t[1]) == 3 and all(x[0] == "i" and 0 <= int(x[1]) <= 255 for x in t[1])
+    if n == "int_from_hex":
+        return t[0] == "i" and int(t[1]) <= 255
+    if n == "dict" and p:
+        if t[0] != "d":
+            return False
+        vs = p.split(":")
+        if len(vs) < 2:
+            return None
+        rs = [py_has_type(vs[0], k) for k, _ in t[1]] + [py_has_type(vs[1], v) for _, v in t[1]]
+        return False if False in rs else None if None in rs else True
     return None
 
 
@@ -1324,6 +1624,146 @@ def gain_defect_only(ty, va, item_t, default, out_t):
     return hit[0] and py_has_item_type(ty, va, fixed) is not False
 
 
+# ---- known findings kivycolor-list-unchecked / color-range-unchecked -----------------------------------------
+HEX68 = re.compile(r"[0-9a-fA-F]{6,8}\Z")
+
+
+def _int_list_form(t):
+    """the r,g,b LIST form of a colour (a comma string of integers): the only form the recorded defects concern;
+    None for named colours, hex strings and everything else"""
+    if t[0] == "i" and not HEX68.match(t[1]):
+        return [int(t[1])]
+    if t[0] != "s":
+        return None
+    x = t[1]
+    if HEX68.match(x):
+        return None
+    try:
+        return [int(q) for q in x.split(",")]
+    except ValueError:
+        return None
+
+
+def _kivy_defect_output(cands):
+    """tagged outputs the recorded defect produces from the inputs: components/255 without a length or range check"""
+    outs = []
+    for c in cands:
+        comps = _int_list_form(c)
+        if comps is None:
+            continue
+        if len(comps) in (3, 4) and all(0 <= q <= 255 for q in comps):
+            continue
+        res = [q / 255 for q in comps]
+        if len(res) == 3:
+            res.append(1)
+        outs.append(json.dumps(tagv(res)))
+    return outs
+
+
+def _color_defect_output(cands):
+    outs = []
+    for c in cands:
+        comps = _int_list_form(c)
+        if comps is None or len(comps) < 3 or all(0 <= q <= 255 for q in comps[:3]):
+            continue
+        outs.append(json.dumps(["tup", [["i", str(q)] for q in comps[:3]]]))
+    return outs
+
+
+def color_defect_only(ty, va, item_t, default, out_t):
+    """'kivycolor-list-unchecked' / 'color-range-unchecked' iff `out_t` is ill-typed ONLY because colour positions hold
+    exactly what the unchecked r,g,b LIST form of one of the inputs gives (wrong number of components, or a component
+    outside 0..255).  Named colours and hex strings are not part of the recorded defects."""
+    names = [split_validator(x)[0] for x in (va.split(":")[:2] if ty in ("dict", "event_handler") else [va])]
+    names = [n[:-9] if n.endswith("_or_token") else n for n in names]
+    if not any(n in ("kivycolor", "color") for n in names):
+        return None
+    cands = _input_elems(ty, item_t, default)
+    if ty in ("list", "set") and item_t is not None and item_t[0] == "s":
+        cands = cands + [item_t]
+    kiv, col = _kivy_defect_output(cands), _color_defect_output(cands)
+    hit = []
+
+    def fix(t, name):
+        if name == "kivycolor" and json.dumps(t) in kiv:
+            hit.append("kivycolor-list-unchecked")
+            return ["n"]
+        if name == "color" and json.dumps(t) in col:
+            hit.append("color-range-unchecked")
+            return ["tup", [["i", "0"]] * 3]
+        return t
+    if ty == "single":
+        fixed = fix(out_t, names[0])
+    elif ty in ("list", "set") and out_t[0] in ("l", "set"):
+        fixed = [out_t[0], [fix(x, names[0]) for x in out_t[1]]]
+    elif ty in ("dict", "event_handler") and out_t[0] == "d":
+        fixed = ["d", [[fix(k, names[0]), fix(v, names[1] if len(names) > 1 else "")] for k, v in out_t[1]]]
+    else:
+        return None
+    if hit and py_has_item_type(ty, va, fixed) is not False:
+        return hit[0]
+    return None
+
+
+# ---- lists of conditional events: the property's own splitter ---------------------------------------------
+EV_ELEM = re.compile(r"[A-Za-z0-9_|-]+(\{[^{}\n]*\})?\Z")
+
+
+def expected_event_elements(text):
+    """'ev1{a==1}, ev2{b==2}, plain' -> the provided elements, one per comma outside braces (None: not a plain list of
+    conditional events, no expectation)"""
+    parts, cur, depth = [], "", 0
+    for ch in text:
+        if ch == "{":
+            depth += 1
+        elif ch == "}":
+            depth -= 1
+        if depth < 0 or depth > 1:
+            return None
+        if ch == "," and depth == 0:
+            parts.append(cur)
+            cur = ""
+        else:
+            cur += ch
+    parts.append(cur)
+    if depth != 0:
+        return None
+    parts = [q.strip() for q in parts]
+    if not all(EV_ELEM.match(q) for q in parts):
+        return None
+    return parts
+
+
+def event_list_failures(ty, va, item_t, out_t):
+    """every provided element of a comma list of (conditional) events appears exactly once in the validated list / as
+    one key of the validated event_handler dict"""
+    if item_t is None or item_t[0] != "s" or "{" not in item_t[1]:
+        return []
+    if ty == "list" and va not in ("event_posted", "event_handler"):
+        want = expected_event_elements(item_t[1])
+        if want is None:
+            return []
+        if out_t[0] != "l" or len(out_t[1]) != len(want):
+            return [{"sig": "list-element-lost",
+                     "what": "list %r provides the %d elements %r but the validated list is %r" %
+                             (item_t[1], len(want), want, out_t)}]
+        if split_validator(va)[0] in ("str", "template_str") and va in ("str",):
+            exp = [["n"] if w.lower() == "none" else ["s", w] for w in want]
+            if json.dumps(exp) != json.dumps(out_t[1]):
+                return [{"sig": "list-element-lost",
+                         "what": "list %r provides the elements %r but the validated list is %r" % (item_t[1], want, out_t)}]
+    if ty == "event_handler":
+        want = expected_event_elements(item_t[1])
+        if want is None or any(w.lower() == "none" for w in want):
+            return []
+        keys = [k[1] for k, _ in out_t[1] if k[0] == "s"] if out_t[0] == "d" else []
+        if sorted(set(want)) != sorted(keys):
+            return [{"sig": "list-element-lost",
+                     "what": "event list %r provides the events %r but the validated dict has the keys %r" %
+                             (item_t[1], want, keys)}]
+    return []
+
+
 def oracle_item(case, out):
     fails = []
     if out.get("spec_changed"):
@@ -1341,10 +1781,31 @@ def oracle_item(case, out):
                           "what": "validate_config_item(%r, item=%r) returned %r: string_to_gain clamps with "
                                   "min(max(x, 0.0), 1.0), which lets NaN through" %
                                   (case["spec"], case.get("item", "<absent>"), out["ok"])})
+        elif py_has_item_type(ty, va, out["ok"]) is False and \
+                color_defect_only(ty, va, case.get("item"), de, out["ok"]):
+            fails.append({"sig": color_defect_only(ty, va, case.get("item"), de, out["ok"]),
+                          "what": "validate_config_item(%r, item=%r) returned %r: the r,g,b list form of a colour is "
+                                  "neither length- nor range-checked" %
+                                  (case["spec"], case.get("item", "<absent>"), out["ok"])})
         elif py_has_item_type(ty, va, out["ok"]) is False:
             fails.append({"sig": "ill-typed:" + (split_validator(va)[0] if ty not in ("dict", "event_handler") else "dict"),
                           "what": "validate_config_item(%r, item=%r) returned %r, which is not a value of the declared type" %
                                   (case["spec"], case.get("item", "<absent>"), out["ok"])})
+        fails.extend(event_list_failures(ty, va, case.get("item"), out["ok"]))
+        # sub-configs: the property's predicate at every depth (unknown keys, completeness) on the spec the code used
+        if out.get("root"):
+            rootmap = {n: b for n, b in out["root"]}
+            vs = va.split(":")[:2] if ty in ("dict", "event_handler") else [va]
+            for j, v in enumerate(vs):
+                n, p = split_validator(v)
+                if n != "subconfig" or not p:
+                    continue
+                res = out["ok"]
+                subs = [res] if ty == "single" else list(res[1]) if ty in ("list", "set") and res[0] in ("l", "set") else \
+                    [(kv[j] if len(vs) > 1 else kv[1]) for kv in res[1]] if res[0] == "d" else []
+                for x in subs:
+                    if x[0] == "d" and x[1]:
+                        deep_walk(rootmap, p.split(","), x, False, ["<item>"], fails, True)
     return fails
 
 
@@ -1387,9 +1848,9 @@ def describe_item(case):
     return "%s|%s" % (ty, split_validator(va)[0] if ty not in ("dict", "event_handler") else "k:v")
 
 
-HDR_ITEM = ("From Coq Require Import QArith.\nFrom C12 Require Import Base Model.\nOpen Scope Z_scope.\n"
+HDR_ITEM = ("From Coq Require Import QArith.\nFrom C12 Require Import Base Model Ext.\nOpen Scope Z_scope.\n"
             "Definition M : machine := " + cmachine() + ".\n"
-            "Definition run := item_run.\nDefinition out_eqb := item_out_eqb.\n")
+            "Definition run := xitem_run.\nDefinition out_eqb := item_out_eqb.\n")
 
 
 # ==================================================================================================
@@ -1701,6 +2162,11 @@ def oracle_section(case, out):
                 gain_defect_only(e[1], e[2], src_vals.get(k), e[3], vt):
             fails.append({"sig": "gain-nan-unclamped",
                           "what": "key %r (%s) validated to %r: string_to_gain lets NaN through" % (k, "|".join(e[1:]), vt)})
+        elif e[0] == "item" and py_has_item_type(e[1], e[2], vt) is False and \
+                color_defect_only(e[1], e[2], src_vals.get(k), e[3], vt):
+            fails.append({"sig": color_defect_only(e[1], e[2], src_vals.get(k), e[3], vt),
+                          "what": "key %r (%s) validated to %r: the r,g,b list form of a colour is neither length- nor "
+                                  "range-checked" % (k, "|".join(e[1:]), vt)})
         elif e[0] == "item" and py_has_item_type(e[1], e[2], vt) is False:
             fails.append({"sig": "ill-typed",
                           "what": "key %r (%s) validated to %r, which is not a value of the declared type" % (k, "|".join(e[1:]), vt)})
@@ -1878,6 +2344,575 @@ HDR_STORE = ("From Coq Require Import QArith.\nFrom C12 Require Import Base Mode
              "Definition M : machine := " + cmachine() + ".\n"
              "Definition run := store_run.\nDefinition out_eqb := store_out_eqb.\n")
 
+# ==================================================================================================
+# suite 5: nested configurations -- subconfig(..) validators (single / list / dict of sub-configs) and nested
+# list-of-dict sub-sections, validated recursively; unknown / misspelled keys at depth >= 2
+DEPTH_SKIP = ("pow2", "gain", "color", "kivycolor", "color_or_token")     # recorded findings: judged by the item suite
+
+
+def _sub_values(ty, va, vt):
+    """[(subconfig parameter, validated sub-config)] of an entry's validated value"""
+    vs = va.split(":")[:2] if ty in ("dict", "event_handler") else [va]
+    out = []
+    for j, v in enumerate(vs):
+        n, p = split_validator(v)
+        if n != "subconfig" or not p:
+            continue
+        if ty == "single":
+            out.append((p, vt, None))
+        elif ty in ("list", "set") and vt[0] in ("l", "set"):
+            out.extend((p, x, i) for i, x in enumerate(vt[1]))
+        elif ty in ("dict", "event_handler") and vt[0] == "d" and len(vs) > 1 and j == 1:
+            out.extend((p, kv[1], kv[0]) for kv in vt[1])
+    return out
+
+
+def deep_walk(rootmap, names, t, allow_invalid, path, fails, add_missing, src_t=None, depth=0):
+    """The property's predicate on a validated config at EVERY nesting depth, independent of the validator and of the
+    model: a dict; no key outside the (independently merged) spec; every provided key kept; every non-private key of
+    the spec present and of its declared type; sub-configs and nested sub-sections likewise."""
+    if depth > 8:
+        return
+    bodies = [tree_get(rootmap, n) for n in names]
+    if any(b is None for b in bodies):
+        return
+    merged = merged_spec_py(bodies)
+    where = ":".join(str(x) for x in path) or "<top>"
+    if t[0] != "d":
+        fails.append({"sig": "section-not-dict", "what": "validated config at %s is a %s" % (where, t[0])})
+        return
+    have = {json.dumps(k): v for k, v in t[1]}
+    if src_t is not None and src_t[0] == "d":
+        for kt, _ in src_t[1]:
+            if json.dumps(kt) not in have:
+                fails.append({"sig": "provided-key-dropped",
+                              "what": "key %r provided at %s is not in the validated config" % (kt, where)})
+    if "__allow_others__" not in merged and not allow_invalid:
+        for kt, _ in t[1]:
+            if kt[0] == "s" and kt[1] not in merged and not kt[1].startswith("_"):
+                fails.append({"sig": "unknown-key-accepted",
+                              "what": "key %r at %s (depth %d) is not in the spec of %s but the config was accepted "
+                                      "and the key kept" % (kt[1], where, depth, "+".join(names))})
+    src_vals = {kt[1]: vt for kt, vt in src_t[1] if kt[0] == "s"} if src_t is not None and src_t[0] == "d" else {}
+    for k, e in merged.items():
+        if e[0] in ("ignore", "raw") or k.startswith("_") or k == "":
+            continue
+        vt = have.get(json.dumps(["s", k]))
+        if vt is None:
+            if add_missing:
+                fails.append({"sig": "spec-key-missing",
+                              "what": "spec key %r missing from the validated config at %s (depth %d)" % (k, where, depth)})
+            continue
+        if e[0] == "nested":
+            if vt[0] != "l":
+                fails.append({"sig": "ill-typed", "what": "key %r at %s (list of sub-configs) validated to %r" % (k, where, vt)})
+                continue
+            sv = src_vals.get(k)
+            for j, x in enumerate(vt[1]):
+                sx = sv[1][j] if sv is not None and sv[0] == "l" and len(sv[1]) == len(vt[1]) else None
+                deep_walk(rootmap, [names[0] + ":" + k], x, allow_invalid, path + [k, j], fails, True, sx, depth + 1)
+            continue
+        subs = _sub_values(e[1], e[2], vt)
+        if subs:
+            sv = src_vals.get(k)
+            for prm, x, idx in subs:
+                sx = None
+                if sv is not None:
+                    if idx is None:
+                        sx = sv
+                    elif isinstance(idx, int) and sv[0] == "l" and len(sv[1]) == len(vt[1]):
+                        sx = sv[1][idx]
+                    elif not isinstance(idx, int) and sv[0] == "d":
+                        sx = dict((json.dumps(a), b) for a, b in sv[1]).get(json.dumps(idx))
+                if x[0] == "d" and not x[1] and not (sx is not None and sx[0] == "d"):
+                    continue          # subconfig of None is {} ("not given"); of a provided dict it is a completed config
+                deep_walk(rootmap, prm.split(","), x, allow_invalid, path + [k] + ([] if idx is None else [json.dumps(idx)]),
+                          fails, True, sx, depth + 1)
+            continue
+        if depth == 0:
+            continue                  # the top level is judged by the caller (known findings classified there)
+        names_k = [split_validator(x)[0] for x in (e[2].split(":")[:2] if e[1] in ("dict", "event_handler") else [e[2]])]
+        if any(x in DEPTH_SKIP for x in names_k):
+            continue
+        if py_has_item_type(e[1], e[2], vt) is False:
+            fails.append({"sig": "ill-typed",
+                          "what": "key %r at %s (depth %d, %s) validated to %r, which is not a value of the declared type" %
+                                  (k, where, depth, "|".join(e[1:]), vt)})
+
+
+def _deep_sections():
+    rs = real_spec()
+    if "deep" not in rs:
+        out = []
+        for sec in rs["sections"]:
+            enc = enc_spec(rs["spec"][sec])
+            if any(e[0] == "nested" for _, e in enc) or _refs_of_body(enc) or any(e[0] == "item" and "dict(" in e[2] for _, e in enc):
+                out.append(sec)
+        rs["deep"] = out
+    return rs["deep"]
+
+
+def safe_item(rng, ty, va, rootmap, depth):
+    """a value that IS valid for the entry (so that only the planted perturbation decides), or `SKIP`"""
+    vs = va.split(":")[:2] if ty in ("dict", "event_handler") else [va]
+
+    def one(v):
+        n, p = split_validator(v)
+        if n.endswith("_or_token"):
+            n = n[:-9]
+        if n in ("str", "lstr", "event_posted", "event_handler"):
+            return rng.choice(["abc", "x1", "ev_a"])
+        if n in ("int", "num", "float", "template_int", "template_float", "template_ms", "template_secs"):
+            lo = 1
+            if p and "," in p:
+                a, b = p.split(",")[:2]
+                try:
+                    lo = float(a) if a != "NONE" else (float(b) if b != "NONE" else 1)
+                except ValueError:
+                    lo = 1
+            return int(lo) if float(lo) == int(lo) else lo
+        if n in ("bool", "boolean", "bool_int", "template_bool"):
+            return rng.choice([True, False])
+        if n in ("ms", "secs"):
+            return rng.choice(["1s", "200ms", 2])
+        if n == "enum":
+            return (p or "").split(",")[0]
+        if n == "machine":
+            return MACHINE[p][0] if MACHINE.get(p) else SKIP
+        if n == "pow2":
+            return 8
+        if n == "list":
+            return "a, b"
+        if n == "dict" and not p:
+            return {}
+        if n == "gain":
+            return 0.5
+        if n in ("color", "kivycolor"):
+            return rng.choice(["red", "ff0000", "0, 128, 255"])
+        if n == "int_from_hex":
+            return "1f"
+        if n == "template_str":
+            return "abc"
+        if n == "subconfig" and p and depth < 3:
+            return gen_deep_source(rng, rootmap, p.split(","), depth + 1)
+        return SKIP
+    if ty in ("dict", "event_handler"):
+        if ty == "event_handler":
+            return rng.choice(["ev1", "ev1, ev2", {"ev1": "1s"}, "ev1{a==1}, ev2{b==2}"])
+        if len(vs) < 2:
+            return SKIP
+        kn = split_validator(vs[0])[0]
+        d = {}
+        for j in range(rng.choice([0, 1, 1, 2])):
+            k = one(vs[0])
+            if k is SKIP or isinstance(k, (dict, list)):
+                return SKIP
+            if kn == "int":
+                k = rng.choice([j + 1, str(j + 1)])
+            elif isinstance(k, str):
+                k = k + str(j)
+            v = one(vs[1])
+            if v is SKIP:
+                return SKIP
+            d[k] = v
+        return d
+    if ty == "single":
+        return one(va)
+    if ty in ("list", "set"):
+        xs = [one(va) for _ in range(rng.choice([0, 1, 2]))]
+        if any(x is SKIP for x in xs):
+            return SKIP
+        if xs and all(isinstance(x, str) for x in xs) and rng.random() < 0.4 and split_validator(va)[0] != "list":
+            return ", ".join(xs)
+        return xs
+    return SKIP
+
+
+SKIP = object()
+
+
+def gen_deep_source(rng, rootmap, names, depth=0):
+    bodies = [tree_get(rootmap, n) for n in names]
+    if any(b is None for b in bodies):
+        return {}
+    merged = merged_spec_py(bodies)
+    src = {}
+    for k, e in merged.items():
+        if k.startswith("_") or e[0] in ("ignore", "raw"):
+            continue
+        if e[0] == "nested":
+            if rng.random() < 0.7 and depth < 3:
+                src[k] = [gen_deep_source(rng, rootmap, [names[0] + ":" + k], depth + 1)
+                          for _ in range(rng.choice([1, 1, 2]))]
+            continue
+        required = e[3] == ""
+        is_sub = "subconfig" in e[2] or "dict(" in e[2]
+        if required or rng.random() < (0.75 if is_sub else 0.12):
+            v = safe_item(rng, e[1], e[2], rootmap, depth)
+            if v is not SKIP:
+                src[k] = v
+    return src
+
+
+def _dicts_at_depth(v, depth, acc, spec_keys_of):
+    """all dict nodes of the source that are sub-configs (depth >= 1), with their depth"""
+    if isinstance(v, dict):
+        acc.append((depth, v))
+        for x in v.values():
+            _dicts_at_depth(x, depth + 1, acc, spec_keys_of)
+    elif isinstance(v, list):
+        for x in v:
+            _dicts_at_depth(x, depth, acc, spec_keys_of)
+
+
+def misspell(rng, k):
+    r = rng.random()
+    if len(k) > 2 and r < 0.3:
+        j = rng.randrange(1, len(k))
+        return k[:j] + k[j + 1:]
+    if r < 0.5:
+        return k + rng.choice("sex1")
+    if r < 0.65:
+        return k.capitalize() if k.capitalize() != k else k.upper()
+    if len(k) > 2 and r < 0.8:
+        j = rng.randrange(0, len(k) - 1)
+        return k[:j] + k[j + 1] + k[j] + k[j + 2:]
+    return rng.choice(["zz", "unknown", "valu", "nam", "x_z"])
+
+
+SYNTH_DEEP = [
+    # name -> spec tree (enc form); s0 refers to s1/s2 in every item type, s1 has a nested sub-section and refers to s2
+    ["s0", [["a", ["item", "single", "int", "0"]],
+            ["one", ["item", "single", "subconfig(s1)", "None"]],
+            ["many", ["item", "list", "subconfig(s1)", "None"]],
+            ["byname", ["item", "dict", "str:subconfig(s2)", "None"]],
+            ["bynum", ["item", "dict", "int:subconfig(s1)", "None"]],
+            ["based", ["item", "single", "subconfig(s2,s3)", "None"]],
+            ["steps", ["nested", [["label", ["item", "single", "str", ""]],
+                                  ["value", ["item", "single", "int(0,10)", "1"]],
+                                  ["inner", ["item", "single", "subconfig(s2)", "None"]]]]],
+            ["col", ["item", "single", "kivycolor", "None"]],
+            ["lut", ["item", "single", "dict(str:int)", "None"]]]],
+    ["s1", [["name", ["item", "single", "str", ""]],
+            ["show", ["item", "single", "str", "None"]],
+            ["speed", ["item", "single", "float(0,NONE)", "1"]],
+            ["deeper", ["item", "single", "subconfig(s2)", "None"]],
+            ["layers", ["nested", [["sound", ["item", "single", "str", ""]],
+                                   ["volume", ["item", "single", "gain", "0.5"]]]]]]],
+    ["s2", [["value", ["item", "single", "int", "0"]],
+            ["events", ["item", "event_handler", "event_handler:ms", "None"]],
+            ["tags", ["item", "list", "str", "None"]],
+            ["more", ["item", "list", "subconfig(s3)", "None"]]]],
+    ["s3", [["value", ["item", "single", "str", "x"]],
+            ["label", ["item", "single", "str", "%"]],
+            ["flag", ["item", "single", "bool", "false"]]]],
+    ["open", [["__allow_others__", ["raw"]], ["sub", ["item", "single", "subconfig(s3)", "None"]]]],
+]
+
+
+def gen_deep(rng, tier, i):
+    if i % 5 in (0, 2, 3):
+        secs = _deep_sections()
+        sec = secs[(i // 5 * 3 + (i % 5 > 0) + (i % 5 > 2)) % len(secs)]
+        rs = real_spec()
+        body = rs["spec"][sec]
+        base = real_bases(body)
+        names = [sec] + base
+        rootmap = {n: b for n, b in spec_closure(rs["spec"], names)}
+        case = {"real": sec, "names": names}
+    else:
+        rootmap = {n: b for n, b in SYNTH_DEEP}
+        names = [rng.choice(["s0", "s0", "s0", "s1", "open"])]
+        case = {"store": SYNTH_DEEP, "names": names}
+    src = gen_deep_source(rng, rootmap, names)
+    nodes = []
+    _dicts_at_depth(src, 0, nodes, None)
+    deep_nodes = [(d, n) for d, n in nodes if d >= 1]
+    r = rng.random()
+    planted = None
+    if deep_nodes and r < 0.55:
+        d, node = rng.choice(deep_nodes)
+        keys = [k for k in node if isinstance(k, str)]
+        bad = misspell(rng, rng.choice(keys)) if keys and rng.random() < 0.75 else rng.choice(["zz", "unknown", "shw", "valu"])
+        if bad not in node:
+            node[bad] = rng.choice([1, "x", True, "1s"])
+            planted = [d, bad]
+    elif r < 0.65:
+        src[rng.choice(["zz", "unknown", "Label", "_hidden"])] = 1
+    elif deep_nodes and r < 0.75:
+        d, node = rng.choice(deep_nodes)
+        if node:
+            k = rng.choice(list(node))
+            node[k] = rvalue(rng, 1)
+    case.update({"source": tagv(src), "add_missing": rng.random() < 0.9, "allow_invalid": rng.random() < 0.04,
+                 "planted": planted})
+    return case
+
+
+def run_deep(case):
+    _need_rig()
+    from mpf.core.config_validator import ConfigValidator
+    machine = _RIG["rig"].machine
+    names = case["names"]
+    if "real" in case:
+        cv = _RIG["cv"]
+        before = _RIG["spec0"]
+    else:
+        store = {n: dec_spec(b) for n, b in case["store"]}
+        cv = ConfigValidator(machine, store)
+        before = spec_fingerprint({n: dec_spec(b) for n, b in case["store"]})
+    root = spec_closure(cv.config_spec, names)
+    base_arg = None if len(names) == 1 else names[1] if len(names) == 2 else tuple(names[1:])
+    old = machine.config["mpf"]["allow_invalid_config_sections"]
+    machine.config["mpf"]["allow_invalid_config_sections"] = bool(case["allow_invalid"])
+    try:
+        out = _outcome(lambda: cv.validate_config(names[0], untag(case["source"]), "name", base_arg, case["add_missing"]))
+    finally:
+        machine.config["mpf"]["allow_invalid_config_sections"] = old
+    out["spec_changed"] = spec_fingerprint(cv.config_spec) != before
+    out["root"] = root
+    return out
+
+
+def coq_deep(case, out):
+    try:
+        root = out.get("root")
+        if not root:
+            return None
+        rootmap = {n: b for n, b in root}
+        src = case["source"]
+        if not deep_in_domain(rootmap, case["names"], src):
+            return None
+        ents = [e for _, b in root for e in _all_entries(b)]
+        mt = cmach(expr_table([src], [e[3] for e in ents], [e[2] for e in ents]))
+        return "((%s, %s, %s, %s, %s, %s), %s)" % (
+            croot(root), mt, blit(case["allow_invalid"]), blit(case["add_missing"]),
+            coqlist(cstr(n) for n in case["names"]), cyv(src), cres(out, cyv, "yv"))
+    except OutOfDomain:
+        return None
+
+
+def oracle_deep(case, out):
+    fails = []
+    if out.get("spec_changed"):
+        fails.append({"sig": "spec-modified", "what": "config_spec differs after a nested validate_config"})
+    if "ok" in out and out.get("root"):
+        rootmap = {n: b for n, b in out["root"]}
+        deep_walk(rootmap, case["names"], out["ok"], case["allow_invalid"], [], fails, case["add_missing"], case["source"])
+    return fails
+
+
+def shrink_deep(case):
+    for y in shrink_value(case["source"]):
+        yield dict(case, source=y)
+
+
+def nontrivial_deep(case, out):
+    return case.get("planted") is not None or "ok" in out
+
+
+def describe_deep(case):
+    return ("real" if "real" in case else "synthetic") + (" unknown-key@depth%d" % case["planted"][0] if case.get("planted") else "")
+
+
+HDR_DEEP = ("From Coq Require Import QArith.\nFrom C12 Require Import Base Model Ext.\nOpen Scope Z_scope.\n"
+            "Definition M : machine := " + cmachine() + ".\n"
+            "Definition run := deep_run.\nDefinition out_eqb := section_out_eqb.\n")
+
+
+# ==================================================================================================
+# suite 6: config-player entries (variable_player, score_queue_player, event_player): name{condition}|number keys
+PRINTABLE = "".join(chr(c) for c in range(32, 127))
+LEGAL = "abcdefghijklmnopqrstuvwxyzABCDEFGHIJKLMNOPQRSTUVWXYZ0123456789_-"
+CONDS = ["x==1", "a", "current_player.ball==1", "1 +", "x}", "a{b", "", "a, b", "not a", "a}|5", "(a)", "x if y else z",
+         "device.switches.s1.state==1", "x:y", "a|b", " "]
+NUMBERS = ["5", "2s", "block", "1.5s", "x", "200ms", "0", " 3", "1:2", "2{x}"]
+
+
+def gen_key(rng):
+    r = rng.random()
+    if r < 0.08:
+        return "".join(rng.choice(PRINTABLE) for _ in range(rng.randrange(1, 8)))
+    name = "".join(rng.choice(LEGAL) for _ in range(rng.randrange(1, 7)))
+    if rng.random() < 0.5:
+        # one character of the full printable alphabet at ANY position of the name (also the last and the first)
+        j = rng.randrange(0, len(name) + 1)
+        c = rng.choice(PRINTABLE)
+        name = name[:j] + c + name[j + (rng.random() < 0.5):]
+    key = name
+    if rng.random() < 0.4:
+        key += "{" + rng.choice(CONDS) + "}"
+    if rng.random() < 0.25:
+        key += rng.choice("|:") + rng.choice(NUMBERS)
+    return key
+
+
+def gen_player(rng, tier, i):
+    player = rng.choice(["variable_player", "score_queue_player_player", "event_player", "event_player"])
+    keys = [gen_key(rng) for _ in range(rng.choice([1, 1, 1, 2, 3]))]
+    if player != "event_player":
+        settings = {k: rng.choice([100, 5, {"int": 5}]) for k in keys}
+        if rng.random() < 0.02:
+            settings = rng.choice(["abc", 5, ["a"], None])
+    else:
+        r = rng.random()
+        if r < 0.4:
+            settings = {k: {} for k in keys}
+        elif r < 0.7:
+            settings = list(keys)
+        else:
+            settings = ", ".join(keys)
+    return {"player": player, "settings": tagv(settings)}
+
+
+def _cond_tag(c):
+    return tagv(c)
+
+
+def run_player(case):
+    _need_rig()
+    machine = _RIG["rig"].machine
+    player = getattr(machine, case["player"])
+    settings = untag(case["settings"])
+    try:
+        res = player.validate_config_entry(settings, "entry")
+    except BaseException as e:     # noqa
+        if isinstance(e, (KeyboardInterrupt, SystemExit)):
+            raise
+        from vlib import CaseTimeout
+        if isinstance(e, CaseTimeout):
+            raise
+        return {"err": err_name(e)}
+    if case["player"] == "event_player":
+        ok = ["d", [[tagv(name), ["l", [["l", [tagv(x["condition"]), tagv(x["number"])]] for x in lst]]]
+                    for name, lst in res.items()]]
+    else:
+        ok = ["d", [[tagv(name), tagv(v.get("condition"))] for name, v in res.items()]]
+    return {"ok": ok}
+
+
+def _player_keys(case):
+    st = case["settings"]
+    if st[0] == "d":
+        return [k for k, _ in st[1]]
+    if st[0] == "l":
+        return list(st[1])
+    return None
+
+
+def coq_player(case, out):
+    try:
+        st = case["settings"]
+        if has_text(st, lambda x: not ascii_ok(x) or "\n" in x or "\r" in x):
+            return None
+        is_event = case["player"] == "event_player"
+        if is_event:
+            if st[0] == "l" and not all(x[0] in ("s", "n") for x in st[1]):
+                return None
+            if st[0] not in ("s", "l", "d"):
+                return None
+            if st[0] == "s" and st[1] == "":
+                return None
+        elif st[0] == "d" and not all(k[0] == "s" for k, _ in st[1]):
+            return None
+        elif st[0] == "n":
+            return None              # _parse_config is not reached; validate_config_entry raises on settings.items()
+        texts = set()
+        _texts_of(st, texts)
+        cands = set()
+        for x in list(texts) + [y for t in texts for y in EV_RE.findall(t)]:
+            i0 = x.find("{")
+            if i0 >= 0:
+                for j in range(i0 + 1, len(x)):
+                    if x[j] == "}":
+                        cands.add(x[i0 + 1:j])
+            for y in re.split(r"[|:]", x)[1:]:
+                cands.add(y)
+        table = []
+        for x in sorted(cands):
+            try:
+                import warnings
+                with warnings.catch_warnings():
+                    warnings.simplefilter("ignore")
+                    ast.parse(x, mode="eval")
+                table.append(x)
+            except SyntaxError:
+                pass
+            except Exception:     # noqa
+                return None
+        if has_text(st, lambda x: not numeric_text_in_domain(x)):
+            return None
+        # values of a dict are not part of the model (always valid): only the keys are handed over
+        if st[0] == "d":
+            st = ["d", [[k, ["n"]] for k, _ in st[1]]]
+        return "((%s, %s, %s), %s)" % (cmach(table), blit(is_event), cyv(st), cres(out, cyv, "yv"))
+    except OutOfDomain:
+        return None
+
+
+NAME_RE = re.compile(r"[0-9a-zA-Z_-]+\Z")
+
+
+def oracle_player(case, out):
+    """ill-formed entries are rejected: an accepted entry has only well-formed names, and every provided key whose name
+    part (up to the first `{`, `|` or `:`) is ill-formed leads to a rejection"""
+    fails = []
+    if "ok" not in out:
+        return fails
+    is_event = case["player"] == "event_player"
+    for k, _ in out["ok"][1]:
+        if k[0] != "s" or (not NAME_RE.match(k[1]) and not (is_event and "(" in k[1])):
+            fails.append({"sig": "ill-formed-entry-accepted",
+                          "what": "%s.validate_config_entry returned the entry name %r" % (case["player"], k)})
+    keys = _player_keys(case)
+    if keys is None and case["settings"][0] == "s" and is_event:
+        want = expected_event_elements(case["settings"][1])
+        keys = [["s", w] for w in want] if want is not None else None
+        if want is not None:
+            got = [k[1] for k, _ in out["ok"][1]]
+            exp = []
+            for w in want:
+                nm = w if "(" in w else re.split(r"[{|:]", w)[0]
+                if nm not in exp:
+                    exp.append(nm)
+            if sorted(exp) != sorted(got):
+                fails.append({"sig": "list-element-lost",
+                              "what": "event_player express config %r provides the events %r, validated entry has %r" %
+                                      (case["settings"][1], want, got)})
+    for k in keys or []:
+        if k[0] != "s" or (is_event and "(" in k[1]):
+            continue
+        name = re.split(r"[{|:]", k[1])[0]
+        if not NAME_RE.match(name):
+            fails.append({"sig": "ill-formed-entry-accepted",
+                          "what": "%s accepted the entry %r whose name %r is not letters/digits/dash/underscore: %r" %
+                                  (case["player"], k[1], name, out["ok"])})
+    return fails
+
+
+def shrink_player(case):
+    st = case["settings"]
+    for y in shrink_value(st):
+        yield dict(case, settings=y)
+    if st[0] == "d":
+        for j, (k, v) in enumerate(st[1]):
+            if k[0] == "s" and len(k[1]) > 1:
+                for q in range(len(k[1])):
+                    yield dict(case, settings=["d", st[1][:j] + [[["s", k[1][:q] + k[1][q + 1:]], v]] + st[1][j + 1:]])
+
+
+def nontrivial_player(case, out):
+    return True
+
+
+def describe_player(case):
+    return case["player"] + " " + case["settings"][0]
+
+
+HDR_PLAYER = ("From Coq Require Import QArith.\nFrom C12 Require Import Base Model Player.\nOpen Scope Z_scope.\n"
+              "Definition M : machine := " + cmachine() + ".\n"
+              "Definition run := player_run.\nDefinition out_eqb := player_out_eqb.\n")
+
 SUITES = [
     Suite("time", gen_time, run_time, HDR_TIME, coq_time, oracle_time, shrink_time, nontrivial_time,
           {"quick": 2000, "thorough": 100000}, describe=describe_time, shard=500),
@@ -1888,7 +2923,16 @@ SUITES = [
           shard=300),
     Suite("store", gen_store, run_store, HDR_STORE, coq_store, oracle_store, shrink_store, nontrivial_store,
           {"quick": 300, "thorough": 8000}, worker_init=rig_init, describe=describe_store, shard=250),
+    Suite("deep", gen_deep, run_deep, HDR_DEEP, coq_deep, oracle_deep, shrink_deep, nontrivial_deep,
+          {"quick": 450, "thorough": 12000}, worker_init=rig_init, describe=describe_deep, shard=115),
+    Suite("player", gen_player, run_player, HDR_PLAYER, coq_player, oracle_player, shrink_player, nontrivial_player,
+          {"quick": 900, "thorough": 30000}, worker_init=rig_init, describe=describe_player, shard=450),
 ]
+
+
+# development aid: C12_ONLY=item,deep restricts a run to the named suites (never set by ./check or the integrator)
+if os.environ.get("C12_ONLY"):
+    SUITES = [x for x in SUITES if x.name in os.environ["C12_ONLY"].split(",")]
 
 
 def widened_search(seed):
@@ -1922,58 +2966,97 @@ RULE_BASE = ("time: strings <decimal><suffix> (65% d.ddd, plus integers, long fr
              "each source is validated twice (second time through the cached merged spec) and every key once on its own "
              "against the section's own declaration (independent merge).  store: 2-4 named sections that redeclare each "
              "other's keys, 2-5 validations in a row against ONE validator with varying base orders, 25% repeats (cache "
-             "hits), 4% unknown section names; non-trivial = >= 2 steps with a base; distinct by case hash.")
+             "hits), 4% unknown section names; non-trivial = >= 2 steps with a base; distinct by case hash.  "
+             "item (round 3): also color / color_or_token / kivycolor (named colours in three letter cases, 6-8 digit hex, 3-5 "
+             "and 9 character strings over [0-9a-fA-Fg#, ] at every position, r,g,b lists with 1-5 components in and out of "
+             "0..255, placeholders), int_from_hex (0x prefixes, underscores, signs), dict(k:v), subconfig(section[,bases]) of "
+             "real sections with known / misspelled keys, and comma lists with TWO OR MORE {conditions} for list and "
+             "event_handler entries.  deep: 3 of 5 cases take the NEXT of the 39 sections of config_spec.yaml that have "
+             "subconfig(..) entries (single / list / dict of sub-configs), nested list-of-dict sub-sections or dict(k:v), "
+             "with MPF's base spec; 2 of 5 a synthetic 5-section store nesting to depth 4 (incl. dict|int:subconfig, "
+             "subconfig with bases, __allow_others__); the source is built VALID for every entry it contains (so that only "
+             "the planted perturbation decides) and in 45% of the cases an unknown or misspelled key (dropped / swapped / "
+             "appended character, other letter case) is planted in a sub-config at depth >= 1 chosen at random (depth 2-4 "
+             "frequent), else a top-level unknown key, a wrong-typed value at depth, or nothing; non-trivial = planted key or "
+             "accepted.  player: variable_player / score_queue_player / event_player entries (dict, list and express-string "
+             "forms) whose keys are name{condition}|number with ONE character of the full printable-ASCII alphabet put at "
+             "ANY position of a legal name (50%), conditions that parse / do not parse / contain braces, |number and "
+             ":number suffixes, 8% fully random printable strings.")
 RULE = RULE_BASE
 TRUSTED_BASE = [
     "Coq 8.16.1 kernel (coqc), vm_compute for witnesses and for evaluating the model in the correspondence run; no native_compute",
     "axioms: none (every Print Assumptions is 'Closed under the global context'); stdlib QArith/Qround/Qabs/Lqa (lra, nra), Lia",
     "translator harness/props/c12.py translate(): Python ast of Util.string_to_ms/string_to_secs -> coq/C12/gen/Time.v "
-    "(supported subset: endswith tests, [:-k] slices, int/float/round calls, * positive int constants; fail-closed), and the "
-    "check of ConfigValidator.validator_list against the model's dispatch (now incl. template_* and gain)",
-    "hand-written model coq/C12/Model.v + Base.v tied to the working tree by correspondence: the real ConfigValidator of a "
-    "booted machine (harness/rig.py) and the model run on the same generated inputs (items, sections, histories of "
-    "validations against one validator), outcomes compared incl. error numbers, dict order, template class and text",
-    "CPython: float()/int()/round()/repr(float)/str.upper/lower/strip and binary64 arithmetic are the semantics Base.v's "
-    "rnd53 / parse_float / parse_int model; validated on every run (time suite), repr(float) supplied as data; that "
-    "parse_float reads a plain decimal text as the exact decimal rational is proved (DecText.v)",
+    "(supported subset: endswith tests, [:-k] slices, int/float/round calls, * positive int constants; fail-closed), "
+    "NAMED_RGB_COLORS of rgb_color.py -> coq/C12/gen/Colors.v (a dict(name=(r, g, b), ...) literal of int constants; "
+    "fail-closed), and the check of ConfigValidator.validator_list against the model's dispatch (all 36 validator names)",
+    "hand-written model coq/C12/Model.v + Ext.v + Player.v + Base.v tied to the working tree by correspondence: the real "
+    "ConfigValidator and the real variable_player / score_queue_player / event_player of a booted machine "
+    "(harness/rig.py) and the model run on the same generated inputs (items, flat sections, histories, NESTED sections "
+    "through subconfig(..) and nested sub-sections, player entries), outcomes compared incl. error numbers, dict order, "
+    "template class and text; the spec store handed to the recursive model is read from the validator under test in the "
+    "worker (closure of the sections reachable through subconfig references)",
+    "CPython: float()/int()/int(x, 16)/round()/repr(float)/str.upper/lower/strip, int/int true division and binary64 "
+    "arithmetic are the semantics Base.v's rnd53 / parse_float / parse_int and Ext.v's parse_int16 / fnum(z/255) model; "
+    "validated on every run, repr(float) supplied as data; that parse_float reads a plain decimal text as the exact "
+    "decimal rational is proved (DecText.v)",
     "Python's expression grammar is abstract in the model: which texts ast.parse(text, mode='eval') accepts is computed by "
     "the harness with the ast module (not by MPF) and handed to the model as data (section '#expr'), like the device names "
     "of the booted rig machine (section -> names, checked at worker start)",
-    "the Python oracle (py_has_type, subconfig_ok, merged_spec_py = independent merge 'own declarations first', per-key "
+    "the Python oracle (py_has_type incl. colours / int_from_hex / dict(k:v), deep_walk = the property's predicate at every "
+    "nesting depth on an independent merge 'own declarations first' of the spec the code used, expected_event_elements = "
+    "independent splitter for comma lists of conditional events, the name grammar [0-9a-zA-Z_-]+ for player entries, per-key "
     "re-validation through ConfigValidator.validate_config_item, expected_ms with fractions.Fraction) and MPF's YAML/spec "
     "loader for config_spec.yaml",
 ]
 ASSUMPTIONS = [
     "ASCII strings; |numbers| in [2^-1000, 2^1000) or 0; numeric text <= 100 digits, |exponent| <= 180 (others are oracle-only)",
-    "spec entries are well formed (three fields; range bounds parse); validators color/color_or_token/kivycolor/int_from_hex/"
-    "subconfig/dict(k:v), gain with a dB text, and nested sub-config lists are outside the model (oracle-only, counted; "
-    "subconfig results are checked recursively by the oracle against an independent merge of the real spec)",
+    "spec entries are well formed (three fields; range bounds parse); gain with a dB text, str() of a list/dict, `set` items "
+    "that are not strings, dict(..) inside dict(k:v), a comma STRING handed to list|subconfig(..) and nested sub-sections "
+    "whose source is not a list are outside the model (oracle-only, counted).  The flat `section` / `store` suites still "
+    "run the first-layer model (entries with the round-3 validators are not fed there; they are fed in `item` and `deep`)",
+    "a color tuple (r, g, b) is written as a 3-element list in the model's observable (the oracle checks that it is a tuple)",
+    "nested_config_sound assumes that every dict of the spec store has unique keys (root_nodup: Python dicts do) and is "
+    "stated for add_missing_keys=True (the default, and what every recursive call uses); fuel bounds the nesting depth "
+    "(deep_fuel = 12 in the correspondence run; real specs nest to depth 4)",
+    "player entries: keys are printable ASCII without newline; the VALUES of variable_player / score_queue_player / "
+    "event_player entries are always valid in the generated cases (their validation is the section validation above) and "
+    "are not part of the player model; allow_brackets is never passed by any caller in /repo (modelled, generated false)",
     "time theorems: the fractional / whole-number theorems over arbitrary text keep the hypothesis that float() reads the "
     "text before the suffix as the nearest double of x; time_string_value_times_unit has no such hypothesis but is for "
     "plain decimal texts d+.d* (<= 400 digits, no sign/exponent/underscore/blanks), value 0 or >= 1e-9, value*unit < 2^49",
-    "the fix commits d658b1b (time strings) and 5a156f6 (range NaN) are in the tree under test; pow2 and gain are modelled "
-    "as they are (known findings pow2-returns-unconverted, gain-nan-unclamped)",
+    "the fix commits d658b1b (time strings) and 5a156f6 (range NaN) are in the tree under test; pow2, gain, kivycolor and "
+    "color are modelled as they are (known findings pow2-returns-unconverted, gain-nan-unclamped, kivycolor-list-unchecked, "
+    "color-range-unchecked)",
     "the per-key oracle (declared-spec-not-applied) is metamorphic: it compares validate_config with validate_config_item of "
     "the same implementation on the independently merged declaration, so it detects a wrong merge / cache / section loop, "
     "not a wrong scalar validator (those are the typedness oracle's and the correspondence's job)",
 ]
-LEVEL_TEXT = ("Machine-checked proof (Coq) that, in an executable model of ConfigValidator (scalar validators incl. templates and "
-              "gain, ranges, enums, devices, tokens, list/set/dict/event_handler normalisation incl. the {condition} event "
-              "regex, defaults, unknown-key check, section loop, spec merge and cache), every accepted value has its declared "
-              "type and range, accepted sections are complete, unknown keys are rejected, provided keys are kept, the merged "
-              "spec gives every key the section's OWN declaration (bases only fill in), and over ANY history of validations "
-              "the spec is never modified and every answer equals a validation against a fresh merge; and that the "
+LEVEL_TEXT = ("Machine-checked proof (Coq) that, in an executable model of ConfigValidator (all 36 validators: scalars, templates, "
+              "gain, colours with the translated colour table, int_from_hex, dict(k:v), subconfig; ranges, enums, devices, "
+              "tokens, list/set/dict/event_handler normalisation incl. the {condition} event regex, defaults, unknown-key "
+              "check, section loop, spec merge and cache, and the RECURSIVE validation of sub-configs and nested "
+              "sub-sections), every accepted value has its declared type and range, accepted sections are complete, unknown "
+              "keys are rejected and absent from every accepted (sub-)config AT EVERY NESTING DEPTH, provided keys are kept, "
+              "the merged spec gives every key the section's OWN declaration, over ANY history of validations the spec is "
+              "never modified and every answer equals a validation against a fresh merge; that a config-player entry is "
+              "accepted only if every character of every entry name is a letter, digit, dash or underscore; and that the "
               "time-string arithmetic TRANSLATED from Util.string_to_ms on every run yields value times unit: exactly when "
               "that is a whole number of ms, within 3/4 ms otherwise, proved down to the decimal text (binary64 rounding "
               "modelled on exact rationals with a proved 2^-53 relative error bound).  The model is tied to the working tree "
               "by running both on the same generated inputs on every run; a direct oracle checks the property's predicate on "
-              "the implementation's outputs for every section of the real spec on every run (coverage reported in RULE).")
-LEVEL_NOTE = ("Trusted: Coq kernel + vm_compute; no axioms. Time functions translated (fail-closed), validators hand-modelled and "
-              "validated differentially incl. error numbers. float()/int() text parsing and binary64 rounding are modelled in "
-              "Gallina and validated against CPython on every run; Python's expression grammar (templates) and the device "
-              "registry are abstract data supplied by the harness. subconfig/color/kivycolor/int_from_hex/dict(k:v) and dB "
-              "gains are covered by the oracle only. Two known findings (pow2-returns-unconverted, gain-nan-unclamped) are "
-              "modelled faithfully with _refuted/_partial theorems.")
-TECHNIQUE = ("Coq proof over translated (time strings) + hand-written (validators, merge, cache, histories) executable model, "
-             "differential correspondence (vm_compute) against the real ConfigValidator of a booted machine, direct typedness/"
-             "completeness/own-declaration/spec-immutability oracle with an independent spec merge")
+              "the implementation's outputs for every section of the real spec on every run (coverage reported in RULE), at "
+              "every nesting depth for the 39 sections with nested specs.")
+LEVEL_NOTE = ("Trusted: Coq kernel + vm_compute; no axioms. Time functions and the colour table translated (fail-closed), "
+              "validators, recursion and player-name parsing hand-modelled and validated differentially incl. error numbers. "
+              "float()/int() text parsing and binary64 rounding are modelled in Gallina and validated against CPython on every "
+              "run; Python's expression grammar (templates, conditions) and the device registry are abstract data supplied by "
+              "the harness. dB gains, str() of containers and non-ASCII strings are covered by the oracle only. Four known "
+              "findings (pow2-returns-unconverted, gain-nan-unclamped, kivycolor-list-unchecked, color-range-unchecked) are "
+              "modelled faithfully with _refuted theorems and full-strength theorems under the guard excluding exactly the "
+              "recorded class.")
+TECHNIQUE = ("Coq proof over translated (time strings, colour table) + hand-written (validators, merge, cache, histories, recursive "
+             "sub-config validation with fuel, player entry names) executable model, differential correspondence (vm_compute) "
+             "against the real ConfigValidator and config players of a booted machine, direct typedness/completeness/"
+             "unknown-key-at-every-depth/own-declaration/spec-immutability/list-element/entry-name oracle with an independent "
+             "spec merge")
